@@ -258,7 +258,7 @@ func writeEvidence(dir string, p *propInfo, r *Rec, tier string, seed int64, wal
 		distinct[o.Key()] = true
 	}
 	cov := map[string]any{
-		"explanation": "Static analysis of /repo's current source (nothing is executed). DECIDED: " + p.Decided +
+		"explanation": "Static analysis of /repo's current source (nothing is executed). DECIDED: " + p.Decided + round10Decided[p.ID] +
 			" NOT DECIDED (the property as a whole is behavioural; a pass means no rule instance is violated, not that the property holds): " + p.NotDecided,
 		"obligations":         n,
 		"discharged":          okN,
